@@ -6,9 +6,10 @@
   stream framing read by `decode_ipc`.  All theorems hold for EVERY metadata parser `parse`, every number of
   tables, shards, messages and bytes.
 
-  Known defect C10-F1 (switches `eofIsEos`, `ignoreDeclaredRows`): `C10_truncation_detected` needs the decoder
-  to demand the end-of-stream marker (or the coordinator to check the declared row count / length); the code
-  today does neither, and `C10_F1_witness` exhibits a strict prefix that the legacy decoder accepts with fewer rows.
+  Finding C10-F1 (switches `eofIsEos`, `ignoreDeclaredRows`; FIXED by /repo commit caf22ad): `C10_truncation_detected`
+  needs the decoder to demand the end-of-stream marker (or the coordinator to check the declared row count / length);
+  the code before the fix did neither, and `C10_F1_witness` exhibits a strict prefix that the legacy decoder accepts
+  with fewer rows.
 -/
 import IQE.Lemmas.Coordinator
 namespace IQE.Props.C10
@@ -281,7 +282,7 @@ private theorem decode_prefix (parse : List Byte → Option Hdr) (dev : Dev) (ms
 
 /-- **C10 (truncation), proviso "the decoder demands the end-of-stream marker".**  Every STRICT prefix of a
     framed fragment response — a cut at any byte, message boundary or not — is rejected.  The proviso
-    `dev.eofIsEos = false` is exactly what the code lacks today (finding C10-F1). -/
+    `dev.eofIsEos = false` is exactly what the code lacked before commit caf22ad (finding C10-F1). -/
 theorem C10_truncation_detected (parse : List Byte → Option Hdr) (dev : Dev) (heos : dev.eofIsEos = false)
     (ms : List Msg) (hw : WfStream parse ms) (p : List Byte) (hp : p <+: frame ms) (hne : p ≠ frame ms) :
     decode parse dev p = none := by
@@ -383,7 +384,7 @@ theorem toyStream_wf : WfStream toyParse toyStream := by
 /-- the complete stream: 59 bytes, 5 rows in two batches -/
 example : (frame toyStream).length = 59 ∧ (decode toyParse Dev.legacy (frame toyStream)).map (totalRows toyParse) = some 5 := by decide
 
-/-- **Negation witness (C10-F1).**  With the switches of today's code on, a strict prefix of a well-formed
+/-- **Negation witness (C10-F1).**  With the switches of the code before commit caf22ad on, a strict prefix of a well-formed
     fragment response — cut at the message boundary after the first batch, byte 34 of 59 — is accepted as a
     complete payload carrying 3 of the 5 rows, although the peer declared 5. -/
 theorem C10_F1_witness :
